@@ -436,7 +436,27 @@ def o_parse_same(out, a, ctx):
     return None
 
 
-ORACLES = {f.__name__[2:]: f for f in [
+def o_sibling(out, a, ctx):
+    """combined message = orbit message followed by clock message (same block bits → same values)"""
+    m3 = parse_msgline(out)
+    if m3 is None:
+        return "combined message rejected: " + out[:80]
+    m1 = parse_msgline(impl.eval_guarded("msg 1 " + a["p1"]))
+    m2 = parse_msgline(impl.eval_guarded("msg 1 " + a["p2"]))
+    if m1 is None or m2 is None:
+        return "component message (%s / %s) built from the combined message's block bits is rejected" % (a["k1"], a["k2"])
+    v3 = [m3["attrs"].get(n) for n in a["n3"]]
+    v12 = [m1["attrs"].get(n) for n in a["n1"]] + [m2["attrs"].get(n) for n in a["n2"][1:]]
+    if v3 != v12:
+        k = next(i for i, (x, y) in enumerate(zip(v3, v12)) if x != y) if len(v3) == len(v12) else -1
+        return "%s satellite block is not %s block followed by %s block: the same bits decode to different values (position %d: %s vs %s)" % (
+            a["k3"], a["k1"], a["k2"], k, v3[k] if k >= 0 else len(v3), v12[k] if k >= 0 else len(v12))
+    if m2["attrs"].get(a["n2"][0]) != m3["attrs"].get(a["n3"][0]):
+        return "satellite id differs between %s and %s" % (a["k2"], a["k3"])
+    return None
+
+
+ORACLES = {f.__name__[2:]: f for f in [o_sibling, 
     o_attrs_expected, o_total, o_c01, o_frames_expected, o_rejected, o_equals, o_serialize, o_parse_ser,
     o_crc, o_parse_err, o_msm_labels, o_immutable, o_identity, o_label_only, o_helpers, o_names,
     o_sock_conserve, o_same_as, o_parse_same]}
@@ -788,6 +808,24 @@ def cases_C01(ctx):
         data2 = pre + bytes(y) + good_frames(ctx, 1)[0]
         cs.append(case(reader_line(1, q, 1, True, True, "-", data2), "q%d:nested-len" % q,
                        ("c01", {"data": hx(data2)}), {"handler": True}))
+    # a frame whose leading part, taken with the *announced* (longer) length field, carries a valid CRC:
+    # only a reader that assembles a frame from an incomplete payload read can deliver it
+    for _ in range(ctx.n(150, 1500)):
+        ip = good_frames(ctx, 1)[0][3:-3]
+        extra = bytes(rng.getrandbits(8) for _ in range(rng.choice([3, 4, 6, 9])))
+        L = len(ip) + 3 + len(extra)
+        if L > 1023:
+            continue
+        hdr = b"\xd3" + L.to_bytes(2, "big")
+        fake = gens.crc24q_ref(hdr + ip).to_bytes(3, "big")
+        body = hdr + ip + fake + extra
+        pre = gens.gen_noise(rng, rng.randint(0, 3), inert=True)
+        data = pre + body + gens.crc24q_ref(body).to_bytes(3, "big") + good_frames(ctx, 1)[0]
+        q = rng.choice([0, 1, 2])
+        for tail in (["0"], ["0", "n"], ["n"], ["3"], ["0", "0"]):
+            sched = ["n"] * (len(pre) + 3) + [str(len(ip))] + tail
+            cs.append(case(reader_line(1, q, 1, True, True, ",".join(sched), data), "q%d:nested-outer-short" % q,
+                           ("c01", {"data": hx(data)}), {"handler": True}))
     # socket-backed with timeouts
     for _ in range(ctx.n(150, 1500)):
         data = adversarial_stream(ctx)
@@ -1263,6 +1301,70 @@ def cases_C10(ctx):
                 orc = ("equals", {"expected": "message %s with these repeat counts occupies %d bits in the standard, the definition lays out %d" % (e["key"], want, r["nbits"])})
             cs.append(case("msg 1 " + hx(r["payload"]), "%s:%s" % (e["key"], r["modes"][0]), orc))
     return cs
+
+
+def sibling_cases(ctx):
+    """(orbit, clock, combined) triples: GPS, GLONASS, six IGS constellations"""
+    ent = {e["key"]: e for _, e in ctx.entries}
+    triples = [("1057", "1058", "1060"), ("1063", "1064", "1066")] + [
+        ("4076_%03d" % (20 * c + 1), "4076_%03d" % (20 * c + 2), "4076_%03d" % (20 * c + 3)) for c in range(1, 7)]
+    out = []
+
+    def bits_of(occs):
+        v, n = 0, 0
+        for o in occs:
+            v = (v << o.width) | o.bits
+            n += o.width
+        return v, n
+
+    def payload_from(hdr_occs, blockbits, blockn):
+        hv, hn = bits_of(hdr_occs)
+        v = (hv << blockn) | blockbits
+        n = hn + blockn
+        pad = (-n) % 8
+        return ((v << pad).to_bytes((n + pad) // 8, "big"))
+    for k1, k2, k3 in triples:
+        if not all(k in ent for k in (k1, k2, k3)):
+            continue
+        for rep in range(ctx.n(3, 20)):
+            try:
+                r3 = ctx.b.build(ent[k3], "one", ctx.rng.choice(["random", "ones", "sign", "mixed"]), "random")
+                b3 = [o for o in r3["occs"] if o.idx == [1]]
+                r1 = ctx.b.build(ent[k1], "one", "zeros", "random")
+                h1, b1 = [o for o in r1["occs"] if not o.idx], [o for o in r1["occs"] if o.idx == [1]]
+                r2 = ctx.b.build(ent[k2], "one", "zeros", "random")
+                h2, b2 = [o for o in r2["occs"] if not o.idx], [o for o in r2["occs"] if o.idx == [1]]
+            except gens.BuildError:
+                continue
+            if not b3 or not b1 or not b2:
+                continue
+            B3, n3 = bits_of(b3)
+            w1 = sum(o.width for o in b1)
+            w2 = sum(o.width for o in b2)
+            wid = b2[0].width
+            if w1 + w2 - wid != n3:
+                # sizes already disagree: the pinned-size oracle reports that; still compare what fits
+                pass
+            first = B3 >> max(n3 - w1, 0) if n3 >= w1 else B3 << (w1 - n3)
+            rest_n = max(n3 - w1, 0)
+            rest = B3 & ((1 << rest_n) - 1)
+            idbits = B3 >> max(n3 - wid, 0) if n3 >= wid else 0
+            blk2 = (idbits << (w2 - wid)) | (rest & ((1 << (w2 - wid)) - 1) if rest_n >= w2 - wid else rest << (w2 - wid - rest_n))
+            p1 = payload_from(h1, first & ((1 << w1) - 1), w1)
+            p2 = payload_from(h2, blk2 & ((1 << w2) - 1), w2)
+            out.append(case("msg 1 " + hx(r3["payload"]), "sibling:%s" % k3,
+                            ("sibling", {"p1": hx(p1), "p2": hx(p2), "k1": k1, "k2": k2, "k3": k3,
+                                         "n1": [gens.attr_name(o.name, o.idx) for o in b1],
+                                         "n2": [gens.attr_name(o.name, o.idx) for o in b2],
+                                         "n3": [gens.attr_name(o.name, o.idx) for o in b3]})))
+    return out
+
+
+_cases_C10_base = cases_C10
+
+
+def cases_C10(ctx):
+    return _cases_C10_base(ctx) + sibling_cases(ctx)
 
 
 GENERATORS = {k[6:]: v for k, v in list(globals().items()) if k.startswith("cases_C")}
